@@ -3,6 +3,7 @@ import TaskModel.Sched.CallLemmas
 import TaskModel.Sched.ProgressLemmas
 import TaskModel.Sched.DeadlockLemmas
 import TaskModel.Sched.TermInv
+import TaskModel.Sched.LiveMain
 import TaskModel.Gen.Codes
 /-!
 # C07 — Bounded concurrency, no deadlock, guaranteed termination
@@ -168,27 +169,28 @@ theorem C07_cycle_error_wrapped (x : Act) (c : Cmd) :
 
 /-! ## deadlock freedom and termination
 
-Proved: termination for acyclic programs (`C07_terminates`), no phase is a dead end, what
-each blocking phase waits for, and the machine-checked deadlock of a cycle through a
-`run: once` task.  Deadlock freedom for acyclic programs is stated in full as
-`C07_no_deadlock` (see the note there). -/
+Proved: deadlock freedom (`C07_no_deadlock`) and termination (`C07_terminates`) for acyclic
+programs, no phase is a dead end, what each blocking phase waits for, and the
+machine-checked deadlock of a cycle through a `run: once` task. -/
 
 /-- the static references (`deps:` and `task:` commands) are acyclic: some rank decreases
 along every reference -/
 def Acyclic (P : Program) : Prop := ∃ rank : Nat → Nat, RankOk P rank
 
-/-- dedup keys identify the task (in the code: a hash of the task and its variables); the
-model accepts any key, so liveness needs this restriction on the trace -/
-def KeysByTask (tr : List Label) : Prop :=
-  ∃ keyTask : Nat → Nat, ∀ l ∈ tr, ∀ k, (l.ev = .register k ∨ l.ev = .waiter k) →
-    ∀ kind t, enterOf l.act tr = some (kind, t) → keyTask k = t
-
-/-- FULL STATEMENT (not discharged): for acyclic programs and at least one slot, every
-reachable configuration in which some activation has not returned accepts a next label -/
-def C07_no_deadlock : Prop :=
-  ∀ (P : Program) (F : Flags) (n : Nat) (tr : List Label) (c : Config),
-    Acyclic P → F.cap ≠ some 0 → KeysByTask tr → replay P F (init n) tr = some c →
-    (∃ a x, c.act? a = some x ∧ x.phase ≠ .done) → ∃ l, (step P F c l).isSome = true
+/-- **C07 (no deadlock).** For every acyclic program, at least one slot (or no limit), and
+dedup keys that identify the task (`KeysByTask`: in the code the key is a hash of the task and
+its variables; the model accepts any key, so the assumption is needed), every reachable
+configuration in which some activation has not returned accepts a next label: the executor
+never deadlocks on its concurrency slots, on deduplicated tasks, on dependencies or on
+nested calls, under any interleaving.  (An activation that cannot move waits for a slot —
+then a slot is free or a holder can move — or for an activation that is strictly smaller in
+`2 * rank task + [is a dedup waiter]`.) -/
+theorem C07_no_deadlock (P : Program) (F : Flags) (n : Nat) (tr : List Label) (c : Config)
+    (hac : Acyclic P) (hcap : F.cap ≠ some 0) (hk : KeysByTask tr) (h : replay P F (init n) tr = some c)
+    (hlive : ∃ a x, c.act? a = some x ∧ x.phase ≠ .done) : ∃ l, (step P F c l).isSome = true := by
+  obtain ⟨rank, hr⟩ := hac
+  obtain ⟨a, x, hx, hnd⟩ := hlive
+  exact no_deadlock P F rank hr n tr c hcap hk h a x hx hnd
 
 /-- **C07 (termination).** For every acyclic program, all flags and every number of calls
 given to `Run` there is a bound on the length of ALL accepted traces: no interleaving runs
